@@ -141,7 +141,8 @@ var containerTags = []string{"textarea", "title", "pre", "option", "td", "li", "
 var rawTextTags = map[string]bool{"xmp": true, "iframe": true, "noembed": true, "noframes": true}
 
 var sinks = []string{"in:textarea", "in:title", "in:pre", "in:option", "in:td", "in:li", "in:button", "in:h1", "in:a", "in:label", "in:code", "in:summary", "in:noscript", "in:xmp", "in:iframe", "in:noembed", "in:noframes", "nsattr", "pretext", "prevtext", "preattr", "prebound", "boundmustache", "boundmustacheclass", "classmix", "stylemix", "stylemixstr", "twotext", "twoattr", "twoloop", "ns:svg:xmp", "ns:svg:iframe", "ns:math:noembed", "ns:svg:noframes", "ns:svg:title", "ns:svg:textarea", "ns:svg:desc:xmp", "pre:xmp", "pre:iframe", "pre:noembed", "pre:noframes", "pre:textarea", "pre:title",
-	"textpipe", "textcall", "textternary", "attrpipe", "boundpipe", "boundcall", "boundternary", "vtextpipe", "vtextcall", "vtextternary", "vtextor", "looppipe", "vtext:xmp", "vtext:iframe", "vtext:noembed", "vtext:noframes", "vtext:textarea", "vtext:title", "vtext:noscript", "elsefor", "elseforattr", "elseiffor", "text", "vtext", "attr", "bound", "vbind", "class", "style", "loop", "loopattr", "loopchild", "incstatic", "incbound", "incattr", "inctplroot", "inctplrootattr", "slotinc", "slotincplain", "slotprop", "layout", "layoutattr", "ifself", "elseself"}
+	"textpipe", "textcall", "textternary", "attrpipe", "boundpipe", "boundcall", "boundternary", "vtextpipe", "vtextcall", "vtextternary", "vtextor", "looppipe", "vtext:xmp", "vtext:iframe", "vtext:noembed", "vtext:noframes", "vtext:textarea", "vtext:title", "vtext:noscript", "elsefor", "elseforattr", "elseiffor", "text", "vtext", "attr", "bound", "vbind", "class", "style", "loop", "loopattr", "loopchild", "incstatic", "incbound", "incattr", "inctplroot", "inctplrootattr", "slotinc", "slotincplain", "slotprop", "layout", "layoutattr", "ifself", "elseself",
+	"bare:text", "bare:only", "bare:pipe", "bare:call", "bare:two"}
 var encs = []string{"bare", "if", "else", "tplif", "nested", "loopchild", "elseif"}
 
 // tokens: the hostile alphabet. The first coreN are enumerated exhaustively.
@@ -186,6 +187,9 @@ type program struct {
 }
 
 func build(c Case) program {
+	if t, ok := bareTpl[c.Sink]; ok {
+		return program{tpl: t[0]}
+	}
 	n := neighbourhoods[c.Nb%len(neighbourhoods)]
 	if strings.HasPrefix(c.Sink, "in:") {
 		tag := strings.TrimPrefix(c.Sink, "in:")
@@ -539,7 +543,57 @@ func baseline(c Case, p program) (string, error) {
 
 func collapse(s string) string { return strings.Join(strings.Fields(s), " ") }
 
+// bareTpl: templates WITHOUT any tag or special character of their own - the whole template is
+// one text run (a greeting line, a title, a subject). Whatever door it goes through, the value
+// arrives as text.
+var bareTpl = map[string][2]string{
+	"bare:text": {"Hello {{ v }}, welcome back.", "Hello \x00, welcome back."},
+	"bare:only": {"{{ v }}", "\x00"},
+	"bare:pipe": {"a {{ v | same }} b", "a \x00 b"},
+	"bare:call": {"x {{ same(v) }}", "x \x00"},
+	"bare:two":  {"{{ v }} and {{ v }}", "\x00 and \x00"},
+}
+
+func checkBare(c Case) error {
+	loose := c.Hex != ""
+	c = full(c)
+	t := bareTpl[c.Sink]
+	out, err := renderC(program{tpl: t[0]}, c.Carrier, c.Value)
+	if err != nil {
+		return fmt.Errorf("render of the tag-less template %q with a hostile value failed: %v", t[0], err)
+	}
+	if strings.Contains(out, canary) {
+		return fmt.Errorf("value was evaluated against the scope: the canary variable was printed\noutput: %s", out)
+	}
+	tree, err := hx.Frag(out, hx.Collapse)
+	if err != nil {
+		return fmt.Errorf("output does not parse: %v", err)
+	}
+	for _, n := range tree {
+		if n.Tag != "" || n.Doctype {
+			return fmt.Errorf("the tag-less template %q with value %q produced markup: the output parses to %s\noutput: %s", t[0], c.Value, hx.Skeleton(tree), out)
+		}
+	}
+	if loose {
+		return nil
+	}
+	shown := c.Value
+	if c.Carrier != "" {
+		_, shown = carry(c.Carrier, c.Value)
+		if shown == "" {
+			return nil
+		}
+	}
+	if got, exp := collapse(hx.TextOf(tree, " ")), collapse(strings.ReplaceAll(t[1], "\x00", shown)); got != exp {
+		return fmt.Errorf("the tag-less template %q shows %q, want %q\noutput: %s", t[0], got, exp, out)
+	}
+	return nil
+}
+
 func check(c Case) error {
+	if _, bare := bareTpl[c.Sink]; bare {
+		return checkBare(c)
+	}
 	loose := c.Hex != ""
 	c = full(c)
 	p := build(c)
